@@ -369,6 +369,44 @@ script_burst(struct rctx *c, struct rng *r, int variant)
                                 mm_submit_burst(c->mm, got, jobs, 0, 0);
                         }
                 }
+                /* not enough space: a parked job keeps every job behind it in the ring, so that fewer than
+                 * n_jobs (<= 128) slots are free; then a NULL job pointer inside an otherwise valid burst */
+                burst_drain(c);
+                burst_submit(c, 1, 1, 0);
+                burst_submit(c, 128, 0, 0);
+                burst_submit(c, 1 + rng_below(r, 100), 0, 0);
+                {
+                        uint32_t freeslots = (uint32_t) (IMB_MAX_JOBS - c->mm->count);
+                        if (freeslots > 0 && freeslots < IMB_MAX_BURST_SIZE) {
+                                uint32_t got = mm_get_next_burst(c->mm, IMB_MAX_BURST_SIZE, jobs);
+                                for (uint32_t i = 0; i < got; i++) {
+                                        fill(c, jobs[i], K_IMM);
+                                        c->seq--; /* not submitted */
+                                        mcall("imb_set_session", (void *) imb_set_session, 2, (uint64_t) c->mm->m,
+                                              (uint64_t) jobs[i]);
+                                }
+                                uint32_t n = freeslots + 1 + rng_below(r, IMB_MAX_BURST_SIZE - freeslots);
+                                for (uint32_t i = got; i < n && got; i++)
+                                        jobs[i] = jobs[0];
+                                if (got) {
+                                        mm_submit_burst(c->mm, n, jobs, 0, IMB_ERR_QUEUE_SPACE);
+                                        cov_hit("C05", "%s|burst|queue-space|free%u", variant_name(c->mm->variant), freeslots / 16);
+                                        if (got >= 2) {
+                                                IMB_JOB *sv = jobs[got - 1];
+                                                jobs[got - 1] = NULL;
+                                                mm_submit_burst(c->mm, got, jobs, 0, IMB_ERR_NULL_JOB);
+                                                jobs[got - 1] = sv;
+                                        }
+                                        /* the offered slots are still usable */
+                                        for (uint32_t i = 0; i < got; i++) {
+                                                fill(c, jobs[i], K_IMM);
+                                                mcall("imb_set_session", (void *) imb_set_session, 2, (uint64_t) c->mm->m,
+                                                      (uint64_t) jobs[i]);
+                                        }
+                                        mm_submit_burst(c->mm, got, jobs, 0, 0);
+                                }
+                        }
+                }
                 break;
         default: /* random bursts */
                 for (int i = 0; i < 30; i++) {
